@@ -73,7 +73,8 @@ def run(chk: Check, drv: Driver):
                     R = Tensor.from_aos(list(rv), list(rv.values()), dimensions=dims_r, format=fmt_obj(rm, ro))
                     case = {"op": op, "left": [fmt_str(lm, lo), list(dims), sorted(lv.items())], "right": [fmt_str(rm, ro), list(dims_r), sorted(rv.items())]}
                     captured.clear()
-                    out = kernels.in_fork(lambda: _apply(L, R, op), timeout=30) if False else _safe(lambda: _apply(L, R, op))
+                    chk.mark(case)
+                    out = _safe(lambda: _apply(L, R, op))
                     chk.case((op, fmt_str(lm, lo), fmt_str(rm, ro), dims, dims_r, json.dumps(sorted(lv.items())), json.dumps(sorted(rv.items()))), sample=case)
                     chk.count("tensor_tensor_" + op)
                     reqs.append("OPSYNTH " + sx([Atom("tensor"), [Atom("fmt"), "".join(lm), list(lo)], list(dims)]) + " "
@@ -107,6 +108,7 @@ def run(chk: Check, drv: Driver):
                         k = rng.choice([2, -1, 0, 2.5, 1])
                         case = {"op": op, "tensor": [fmt_str(lm, lo), list(dims), sorted(lv.items())], "scalar": k, "scalar_side": side}
                         captured.clear()
+                        chk.mark(case)
                         out = _safe(lambda: _apply(T, k, op) if side == "right" else _apply(k, T, op))
                         chk.case((op, side, fmt_str(lm, lo), dims, k, json.dumps(sorted(lv.items()))), sample=None)
                         chk.count("tensor_scalar_" + op)
@@ -143,6 +145,7 @@ def run(chk: Check, drv: Driver):
                 R = Tensor.from_aos(list(rv), list(rv.values()), dimensions=rd, format=fmt_obj(rm, ro))
                 case = {"op": "@", "left": [fmt_str(lm, lo), list(ld), sorted(lv.items())], "right": [fmt_str(rm, ro), list(rd), sorted(rv.items())]}
                 captured.clear()
+                chk.mark(case)
                 out = _safe(lambda: L @ R)
                 chk.case(("@", fmt_str(lm, lo), fmt_str(rm, ro), ld, rd, json.dumps(sorted(lv.items())), json.dumps(sorted(rv.items()))), sample=case if (lo_, ro_) == (2, 2) else None)
                 chk.count(f"matmul_{lo_}{ro_}")
